@@ -76,6 +76,11 @@ impl core::ops::Deref for Bytes {
 pub proof fn axiom_bytes_len(b: &Bytes)
     ensures b@.len() <= isize::MAX
 {}
+//@trusted T1 no in-memory byte string is longer than 2^56 octets (virtual address space of every supported 64-bit target), so sums of a few lengths fit usize
+#[verifier::external_body]
+pub proof fn axiom_addr_space_bytes(b: &Bytes)
+    ensures b@.len() < 0x0100_0000_0000_0000
+{}
 #[verifier::external_body]
 pub proof fn axiom_slice_len<T>(b: &[T])
     ensures b@.len() <= isize::MAX
@@ -127,4 +132,11 @@ impl<W: io::Write> io::Write for &mut W {
     fn write_all(&mut self, buf: &[u8]) -> (r: io::Result<()>) { unimplemented!() }
     #[verifier::external_body]
     fn flush(&mut self) -> (r: io::Result<()>) { unimplemented!() }
+}
+
+//@trusted T2 snafu context selector InvalidInputSnafu.build() is an opaque crate::errors::Error value
+pub struct InvalidInputSnafu;
+impl InvalidInputSnafu {
+    #[verifier::external_body]
+    pub fn build(self) -> (e: errors::Error) { unimplemented!() }
 }
